@@ -4,14 +4,21 @@ import os
 
 _ORDER = {}
 ENGINES = {}
+BROKEN = {}
 _dir = os.path.join(os.path.dirname(os.path.abspath(__file__)), "engines")
 for _f in sorted(os.listdir(_dir)):
     if _f.endswith(".py") and not _f.startswith("_"):
         _m = "harness.engines." + _f[:-3]
         try:
             _mod = importlib.import_module(_m)
-        except Exception as e:  # an engine under construction must not break the others
+        except Exception as e:  # an engine under construction must not break the others ...
             print(f"[registry] engine {_m} not loadable: {e!r}")
+            # ... but a check that should use it must not quietly run without it
+            import re as _re
+            _t = open(os.path.join(_dir, _f)).read()
+            _s = _re.search(r"^SERVES\s*=\s*\[(.*?)\]", _t, _re.S | _re.M)
+            for _p in _re.findall(r"C\d\d", _s.group(1)) if _s else []:
+                BROKEN.setdefault(_p, []).append((_m, repr(e)))
             continue
         for _p in getattr(_mod, "SERVES", []):
             ENGINES.setdefault(_p, []).append(_m)
